@@ -14,6 +14,7 @@ import Cfdm.Driver.C02
 import Cfdm.Driver.C04
 import Cfdm.Driver.C11
 import Cfdm.Driver.C10
+import Cfdm.Driver.C12
 open Cfdm.Driver
 
 def step (line : String) : String :=
@@ -39,6 +40,7 @@ def step (line : String) : String :=
       | ["C04", sub] => C04.run sub kv
       | ["C11", sub] => C11.run sub kv
       | ["C10", sub] => C10.run sub kv
+      | ["C12", sub] => C12.run sub kv
       | _ => "bad-op"
 
 partial def loop (h : IO.FS.Stream) : IO Unit := do
